@@ -61,3 +61,31 @@ pub fn run(out: &mut Out, rng: &mut Rng, thorough: bool) {
         }
     }
 }
+
+/// op `bigtess`: tessellations with one very large cell (a generator in a void inside a dense shell: hundreds of clipping
+/// planes, faces and vertices) or very uneven density.  Same record format as `tess`; too large for the exact oracle, so only
+/// the relations a tessellation must satisfy by itself are examined (C04: normals, centroids on planes, closure, divergence).
+pub fn run_big(out: &mut Out, rng: &mut Rng, thorough: bool) {
+    let reps = if thorough { 3 } else { 1 };
+    for _ in 0..reps {
+        for (fam, dim, periodic, n) in [
+            ("void_shell", 3usize, false, 150usize),
+            ("void_shell", 3, false, 330),
+            ("void_shell", 3, true, 260),
+            ("void_shell", 2, false, 300),
+            ("blob_isolated", 3, true, 200),
+            ("blob_isolated", 2, false, 500),
+        ] {
+            let n = n + rng.below(40) as usize;
+            let inp = gen::make(rng, fam, dim, periodic, n);
+            let mask = if rng.chance(0.3) {
+                let mut m = gen::make_mask(rng, inp.gens.len());
+                m[0] = true;
+                Some(m)
+            } else {
+                None
+            };
+            emit(out, "bigtess", &inp, &mask);
+        }
+    }
+}
